@@ -1411,3 +1411,8 @@ func constObjString(o types.Object) string {
 	}
 	return ""
 }
+
+// isInitFn: the package initialiser or a declared `func init()`.
+func isInitFn(f *ssa.Function) bool {
+	return f != nil && f.Parent() == nil && (f.Name() == "init" || strings.HasPrefix(f.Name(), "init#"))
+}
